@@ -1005,7 +1005,7 @@ class Dilator:
             self._manager = m
             if self._pending_dilation_key is not None:
                 m.got_dilation_key(self._pending_dilation_key)
-            if self._pending_wormhole_versions:
+            if self._pending_wormhole_versions is not None:
                 self._deliver_versions(self._pending_wormhole_versions)
 
         return self._manager._api
